@@ -19,7 +19,7 @@ PROP = "C03"
 COQ_TARGETS = ["theories/Model/AlignedRun.vo"]
 
 KIND_CODE = {"dna": 0, "rna": 1, "protein": 2, "text": 2}
-NON_DEGEN = {"dna": "TCAG", "rna": "UCAG", "protein": "ACDEFGHIKLMNPQRSTVWY"}
+NON_DEGEN = {"dna": "TCAG", "rna": "UCAG", "protein": "ACDEFGHIKLMNPQRSTUVWY"}
 GAPS = {"dna": "-?", "rna": "-?", "protein": "-?"}
 COMP = {"dna": str.maketrans("ACGTRYKMSWBDHVN-?", "TGCAYRMKSWVHDBN-?"),
         "rna": str.maketrans("ACGURYKMSWBDHVN-?", "UGCAYRMKSWVHDBN-?")}
@@ -135,8 +135,8 @@ def oracle_step(st: OState, op):
         return st.maprows(lambda s: "".join(s[i] for i in keep))
     if o == "sample":
         m = op["motif"]
-        if m < 1 or any(not 0 <= l < L // m for l in op["locs"]):
-            return SILENT
+        if m < 1 or not op["locs"] or any(not 0 <= l < L // m for l in op["locs"]):
+            return SILENT   # (n=0 means "the default number of positions")
         return st.maprows(lambda s: "".join(s[l * m:(l + 1) * m] for l in op["locs"]))
     if o == "to_rna":
         if not nucleic:
@@ -317,7 +317,9 @@ def rand_op(rng, st: OState, wild=False):
     if k == "sample":
         m = rng.choice([1, 1, 2])
         pop = L // m
-        return dict(op="sample", locs=[rng.randrange(pop) for _ in range(rng.randint(0, 5))] if pop else [], motif=m)
+        if not pop:
+            return dict(op="rc")
+        return dict(op="sample", locs=[rng.randrange(pop) for _ in range(rng.randint(1, 5))], motif=m)
     if k in ("to_rna", "to_dna", "to_type"):
         return dict(op=k)
     if k == "window":
@@ -392,7 +394,7 @@ def single_ops(L, nrows, arr, mt, tier):
         ops.append(dict(op="no_degen", motif=m, allow_gap=False))
         ops.append(dict(op="no_degen", motif=m, allow_gap=True))
         pop = L // m
-        for locs in ([], [0], [pop - 1, 0], [0, 0, pop - 1]):
+        for locs in ([0], [pop - 1, 0], [0, 0, pop - 1]):
             if all(0 <= l < pop for l in locs):
                 ops.append(dict(op="sample", locs=locs, motif=m))
     for n in range(nrows):
@@ -596,10 +598,13 @@ def check_case(rep, c, ir, mr, stats, disagreements):
 def check_new_collection(rep, c, ir, stats):
     mt = c["moltype"]
     rows = list(c["rows"])
+    rev = False
     for op, s in zip(c["ops"], ir["steps"]):
         stats["evals"] += 1
         o = op["op"]
+        was_rev = rev
         if o == "rc":
+            rev = not rev
             rows = [(i, r.translate(COMP[mt])[::-1]) for i, r in rows]
         elif o == "to_rna":
             rows, mt = [(i, r.replace("T", "U")) for i, r in rows], "rna"
@@ -614,7 +619,7 @@ def check_new_collection(rep, c, ir, stats):
         got = s.get("obs", [None, None, None])[2] if "obs" in s else s
         if got != exp:
             stats["violations"] += 1
-            rep.violation(f"new:{o}", dict(case=c, op=op, expected_by_spec=exp, observed_impl=s,
+            rep.violation(f"new:{o}" + (":after-rc" if was_rev else ""), dict(case=c, op=op, expected_by_spec=exp, observed_impl=s,
                                            broken="new-style SequenceCollection result differs from the string operation"))
             return
         stats["ops"]["new:" + o] = stats["ops"].get("new:" + o, 0) + 1
@@ -656,10 +661,14 @@ def run(tier: str, seed: int) -> int:
     nrand = (500 if tier == "quick" else 12000) * (3 if proof_broken else 1)
     cases = corpus(flags) + exhaustive_block(tier, flags) + [random_case(rng, flags) for _ in range(nrand)]
     newc = new_collection_cases(rng, 60 if tier == "quick" else 1500)
+    import time
+    t0 = time.time()
     impl = core.run_impl_sharded("c03_impl.py", cases + newc, nshards=core.NPROC)
+    t1 = time.time()
     model = None
     try:
         model = run_model(cases, flags)
+        rep.notes.append(f"implementation {t1 - t0:.0f} s, model {time.time() - t1:.0f} s")
     except core.CheckError as e:
         if not proof_broken:
             raise
